@@ -1,10 +1,15 @@
-(* reads harness output on stdin; for every dump block prints the verified
-   checker's verdict:  "wf ok" or "wf VIOLATION <clause>@<id> ..." ; other lines are echoed *)
+(* reads harness output on stdin; for every dump block prints
+     "wf ok" | "wf VIOLATION <clause>@<id> ..."      verdict of the verified checker wf_check
+     "levels ok" | "levels DIFF model=... impl=..."  model of hwloc_connect_levels vs the C levels
+   other lines are echoed *)
+let show ls = Stdlib.String.concat "|" (Stdlib.List.map (fun l -> Stdlib.String.concat "," (Stdlib.List.map (fun i -> string_of_int (int_of_n i)) l)) ls)
 let () =
   read_blocks stdin
     (fun lines ->
        let p = parse_dump_lines lines in
-       match wf_check p.pd with
-       | [] -> print_endline "wf ok"
-       | vs -> print_endline ("wf VIOLATION " ^ Stdlib.String.concat " " (Stdlib.List.map (fun (c, i) -> ocaml_of_coq_string c ^ "@" ^ string_of_int (int_of_n i)) vs)))
+       (match wf_check p.pd with
+        | [] -> print_endline "wf ok"
+        | vs -> print_endline ("wf VIOLATION " ^ Stdlib.String.concat " " (Stdlib.List.map (fun (c, i) -> ocaml_of_coq_string c ^ "@" ^ string_of_int (int_of_n i)) vs)));
+       if levels_agree p.pd then print_endline "levels ok"
+       else print_endline ("levels DIFF model=" ^ (match model_levels p.pd with Some ls -> show ls | None -> "none") ^ " impl=" ^ show (dump_levels p.pd)))
     (fun l -> print_endline l)
